@@ -272,7 +272,7 @@ def _build_native(scratch, extra_main=None, features=()):
         f.write('[package]\nname = "vxnative"\nversion = "0.0.0"\nedition = "2021"\n\n[dependencies]\n'
                 'autosar-data = { path = "../autosar-data" }\nautosar-data-specification = { path = "../autosar-data-specification" }\n'
                 )
-    entry = open(os.path.join(VERIF, 'native', 'entry.rs')).read() + '\n' + open(os.path.join(VERIF, 'native', 'editconform.rs')).read() + '\n' + open(os.path.join(VERIF, 'native', 'dupes.rs')).read() + '\n' + open(os.path.join(VERIF, 'native', 'copycheck.rs')).read() + '\n' + open(os.path.join(VERIF, 'native', 'sortperm.rs')).read() + '\n' + open(os.path.join(VERIF, 'native', 'copycross.rs')).read() + '\n' + open(os.path.join(VERIF, 'native', 'whitespace.rs')).read()
+    entry = open(os.path.join(VERIF, 'native', 'entry.rs')).read() + '\n' + open(os.path.join(VERIF, 'native', 'editconform.rs')).read() + '\n' + open(os.path.join(VERIF, 'native', 'dupes.rs')).read() + '\n' + open(os.path.join(VERIF, 'native', 'copycheck.rs')).read() + '\n' + open(os.path.join(VERIF, 'native', 'sortperm.rs')).read() + '\n' + open(os.path.join(VERIF, 'native', 'copycross.rs')).read() + '\n' + open(os.path.join(VERIF, 'native', 'whitespace.rs')).read() + '\n' + open(os.path.join(VERIF, 'native', 'rawtexts.rs')).read()
     with open(os.path.join(d, 'src', 'main.rs'), 'w') as f:
         f.write(NATIVE_MAIN + '\nmod vx_entry {\n' + entry + '\n}\n')
     ws = scratch.path('Cargo.toml')
